@@ -32,6 +32,8 @@ pub struct C15 {
     /// after the k-th interruption (cancellation or transient error) that leaves a payload partly read, lower max_len to the
     /// largest payload of the frames still to come (only when max_len_mode == 0)
     pub knob_mid: Option<u32>,
+    /// call the reader()/reader_mut() accessors (without consuming anything) whenever no read is in flight
+    pub touch: bool,
     pub src: Vec<Step>,
     pub caller: Vec<Decide>,
 }
@@ -150,6 +152,10 @@ impl<'s> FamVisitor for Runner<'s> {
                 self.obs.borrow_mut().probe(pb::rewrap_at_boundary);
             }
             at_boundary = false;
+            if s.touch {
+                let _ = reader.reader_mut();
+                let _ = reader.reader();
+            }
             self.obs.borrow_mut().event(ev::ISSUE, got as u64);
             let outcome: Option<Res> = {
                 let mut fut: std::pin::Pin<Box<dyn Future<Output = Res> + '_>> = if s.use_ctx {
@@ -360,6 +366,7 @@ impl Scenario for C15 {
             .set("use_ctx", self.use_ctx)
             .set("rewrap_at", self.rewrap_at)
             .set("knob_mid", self.knob_mid)
+            .set("touch", self.touch)
             .set("src", lane_to_json(&self.src))
             .set("caller", decides_to_json(&self.caller))
     }
@@ -374,6 +381,7 @@ impl Scenario for C15 {
             use_ctx: j.get("use_ctx").and_then(|c| c.as_bool()).unwrap_or(false),
             rewrap_at: j.get("rewrap_at").and_then(|c| c.as_u64()).map(|c| c as u32),
             knob_mid: j.get("knob_mid").and_then(|c| c.as_u64()).map(|c| c as u32),
+            touch: j.get("touch").and_then(|c| c.as_bool()).unwrap_or(false),
             src: lane_from_json(j.get("src"))?,
             caller: decides_from_json(j.get("caller"))?,
         })
@@ -430,6 +438,9 @@ impl Scenario for C15 {
         if self.knob_mid.is_some() {
             out.push(C15 { knob_mid: None, ..self.clone() });
         }
+        if self.touch {
+            out.push(C15 { touch: false, ..self.clone() });
+        }
         if self.family != Ty::Str && self.family != Ty::U64 {
             // simpler payload type, same shapes of frames
             for t in [Ty::U64, Ty::Str] {
@@ -483,7 +494,7 @@ fn stream_len(values: &[ValSpec]) -> usize {
 }
 
 fn base(family: Ty, values: Vec<ValSpec>) -> C15 {
-    C15 { family, values, cut: None, init_buf: 0, max_len_mode: 0, use_ctx: false, rewrap_at: None, knob_mid: None, src: vec![], caller: vec![] }
+    C15 { family, values, cut: None, init_buf: 0, max_len_mode: 0, use_ctx: false, rewrap_at: None, knob_mid: None, touch: false, src: vec![], caller: vec![] }
 }
 
 fn generate_single(r: &mut Rng, tier: Tier) -> C15 {
@@ -570,6 +581,7 @@ fn generate_single(r: &mut Rng, tier: Tier) -> C15 {
         use_ctx: r.chance(1, 8),
         rewrap_at: if r.chance(1, 6) { Some(r.below(nframes as u64 + 1) as u32) } else { None },
         knob_mid: if r.chance(1, 4) { Some(r.below(3) as u32) } else { None },
+        touch: r.chance(1, 3),
         src,
         caller,
     }
